@@ -508,14 +508,20 @@ def run_writer(ctx, rng, pools):
                                         + gen.WORDS_NONASCII),
                          rng.randint(1, 8), 0, 0.2, rng.random() < 0.3)
              for _ in range(rng.randint(1, 4))]
+    case = {'kind': 'writer', 'system': system, 'specs': specs,
+            'pos': rng.random() < 0.5}
+    writer_case(ctx, case, rng)
+
+
+def writer_case(ctx, case, rng):
+    R = ctx.R
+    system, specs, pos = case['system'], case['specs'], case['pos']
     trans = []
-    case = {'kind': 'writer', 'system': system, 'specs': specs}
     for spec in specs:
         r = run_system(ctx, system, spec, rng, case)
         if r is None:
             return
         trans.append(r)
-    pos = rng.random() < 0.5
     dest = ctx.path('.plain')
     try:
         R.transitionoutput.plain(trans, dest, 'utf-8',
@@ -551,4 +557,4 @@ def replay(ctx, case):
     elif case['kind'] == 'cli':
         cli_case(ctx, case['bank'], case['system'], case['pos'])
     else:
-        print('writer case: re-run the check')
+        writer_case(ctx, case, rng)
